@@ -27,6 +27,7 @@ WORKER = os.path.join(HERE, "worker.py")
 REPO = os.environ.get("VERIF_REPO", "/repo")
 N_LANES = 16
 GUARD = "DATA_ALGEBRA_VERIF"
+REPLAYS = os.environ.get("VERIF_REPLAY_DIR", os.path.join(HERE, "replays"))
 
 
 def log(msg: str):
@@ -194,8 +195,8 @@ def _main(a, prop, seed, mod, tier, work, t_start, compile_s) -> int:
                     harness_errors.append(d)
     if harness_errors:
         d = harness_errors[0]
-        os.makedirs(os.path.join(HERE, "replays", prop), exist_ok=True)
-        hp = os.path.join(HERE, "replays", prop, f"harness-error-{d['seed']}.json")
+        os.makedirs(os.path.join(REPLAYS, prop), exist_ok=True)
+        hp = os.path.join(REPLAYS, prop, f"harness-error-{d['seed']}.json")
         with open(hp, "w") as f:
             json.dump({"scenario": d["scenario"]}, f)
         log(f"HARNESS-ERROR: {len(harness_errors)} run(s) raised inside the harness; first seed={d['seed']} "
@@ -272,9 +273,9 @@ def _main(a, prop, seed, mod, tier, work, t_start, compile_s) -> int:
         exit_code = 1
     for sig in new_sigs[max_report:]:
         d = sorted(by_sig[sig], key=lambda d: d["seed"])[0]
-        os.makedirs(os.path.join(HERE, "replays", prop), exist_ok=True)
+        os.makedirs(os.path.join(REPLAYS, prop), exist_ok=True)
         from sim.core import digest
-        path = os.path.join(HERE, "replays", prop, digest(sig, 12) + "-unminimised.json")
+        path = os.path.join(REPLAYS, prop, digest(sig, 12) + "-unminimised.json")
         with open(path, "w") as f:
             json.dump({"property": prop, "signature": d["sig"], "scenario": d["scenario"]}, f, indent=1, sort_keys=True)
         out_lines.append(f"VIOLATION property={prop} replay={path}")
@@ -359,8 +360,8 @@ def _minimise_and_replay(prop, d, work, tier):
     sig = d["sig"]
     hs = d["scenario"]["hashseed"]
     inp = os.path.join(work, f"min-{d['seed']}.in.json")
-    os.makedirs(os.path.join(HERE, "replays", prop), exist_ok=True)
-    outp = os.path.join(HERE, "replays", prop, digest("|".join(sig), 12) + ".json")
+    os.makedirs(os.path.join(REPLAYS, prop), exist_ok=True)
+    outp = os.path.join(REPLAYS, prop, digest("|".join(sig), 12) + ".json")
     with open(inp, "w") as f:
         json.dump({"scenario": d["scenario"], "sig": sig, "budget_s": tier.get("minimise_budget_s", 45),
                    "max_execs": tier.get("minimise_execs", 2000)}, f)
